@@ -4,8 +4,19 @@
 // TODO:
 // * Make Circ typed?
 
+#[cfg(rustradio_verif_sync)]
+use crate::verif::collections::BTreeMap;
+#[cfg(rustradio_verif_sync)]
+use crate::verif::sync::{Condvar, Mutex};
+#[cfg(rustradio_verif_sync)]
+#[allow(unused_imports)]
+use crate::verif::VerifSort;
+#[cfg(not(rustradio_verif_sync))]
 use std::collections::BTreeMap;
 use std::os::fd::AsRawFd;
+#[cfg(rustradio_verif_sync)]
+use std::sync::Arc;
+#[cfg(not(rustradio_verif_sync))]
 use std::sync::{Arc, Condvar, Mutex};
 
 use libc::{MAP_FAILED, MAP_FIXED, MAP_SHARED, PROT_READ, PROT_WRITE};
@@ -70,6 +81,18 @@ impl Map {
     }
 }
 
+#[cfg(rustradio_verif)]
+impl Drop for Map {
+    fn drop(&mut self) {
+        if self.len != 0 {
+            let layout = std::alloc::Layout::from_size_align(self.len, 16).unwrap();
+            // SAFETY: allocated in the verification `Circ::new` with this layout.
+            unsafe { std::alloc::dealloc(self.base, layout) };
+        }
+    }
+}
+
+#[cfg(not(rustradio_verif))]
 impl Drop for Map {
     fn drop(&mut self) {
         // SAFETY: This is what we mmapped.
@@ -90,7 +113,55 @@ pub struct Circ {
 }
 
 impl Circ {
+    /// Heap-backed stand-in for the double mapping (verification builds only).
+    #[cfg(rustradio_verif)]
+    fn new(size: usize) -> Result<Self> {
+        if size == 0 {
+            return Err(Error::msg("verification build: zero size"));
+        }
+        let size_x2 = size * 2;
+        let layout = std::alloc::Layout::from_size_align(size_x2, 16).unwrap();
+        // SAFETY: layout has non-zero size.
+        let base = unsafe { std::alloc::alloc_zeroed(layout) };
+        assert!(!base.is_null());
+        Ok(Self {
+            len: size_x2,
+            map: Map { base, len: size_x2 },
+            _map2: Map {
+                base: std::ptr::null_mut(),
+                len: 0,
+            },
+        })
+    }
+
+    /// Stand-in for the aliasing of the two halves: copy committed bytes to
+    /// their alias (verification builds only). `start < size`, `len <= size`.
+    #[cfg(rustradio_verif)]
+    fn mirror(&self, start: usize, len: usize) {
+        let size = self.len / 2;
+        let end = start + len;
+        assert!(start < size && end <= self.len);
+        let mid = end.min(size);
+        // SAFETY: source and destination lie in different halves of the
+        // allocation of self.len bytes.
+        unsafe {
+            std::ptr::copy_nonoverlapping(
+                self.map.base.add(start),
+                self.map.base.add(start + size),
+                mid - start,
+            );
+            if end > size {
+                std::ptr::copy_nonoverlapping(
+                    self.map.base.add(size),
+                    self.map.base,
+                    end - size,
+                );
+            }
+        }
+    }
+
     /// Create a new circular buffer.
+    #[cfg(not(rustradio_verif))]
     fn new(size: usize) -> Result<Self> {
         let size_x2 = size * 2;
         // Annotating the temp dir directory may help in case of not enough
@@ -414,6 +485,8 @@ impl<T: Copy> Buffer<T> {
         for k in keys {
             s.tags.remove(&k);
         }
+        #[cfg(rustradio_verif)]
+        crate::verif::activity(crate::verif::CONSUME, n);
         s.rpos = newpos;
         s.used -= n;
         cv.notify_all();
@@ -452,6 +525,11 @@ impl<T: Copy> Buffer<T> {
             let tag = Tag::new(pos, tag.key(), tag.val().clone());
             s.tags.entry(pos).or_default().push(tag);
         }
+        #[cfg(rustradio_verif)]
+        self.circ
+            .mirror(s.wpos * self.member_size, n * self.member_size);
+        #[cfg(rustradio_verif)]
+        crate::verif::activity(crate::verif::PRODUCE, n);
         s.wpos = (s.wpos + n) % s.capacity();
         s.used += n;
         cv.notify_all();
@@ -512,6 +590,14 @@ impl<T: Copy> Buffer<T> {
             self, start, end,
         ))
     }
+}
+
+#[cfg(rustradio_verif)]
+pub mod verif_access {
+    include!(concat!(
+        env!("RUSTRADIO_VERIF_DIR"),
+        "/access/circular_buffer.rs"
+    ));
 }
 
 #[cfg(test)]
